@@ -16,9 +16,78 @@ use crate::Ctx;
 use serde_json::json;
 use std::io::Read;
 
+/// Library-written packages with features that well-meant "housekeeping" at save time might act on:
+/// data streams whose row is gone, foreign keys to tables that do not exist, cleared or empty summary
+/// properties, differing code pages, unused string-pool entries, empty tables, tables and streams sharing names.
+fn make_featured(rng: &mut Rng) -> Option<Vec<u8>> {
+    use std::io::Write;
+    let med = Medium::new();
+    let mut p = msi::Package::create(*rng.pick(&[msi::PackageType::Installer, msi::PackageType::Patch, msi::PackageType::Transform]), med.handle()).ok()?;
+    let f = rng.next_u64();
+    let bit = |i: u32| f >> i & 1 == 1;
+    if bit(0) {
+        p.create_table("Binary", vec![msi::Column::build("Name").primary_key().id_string(72), msi::Column::build("Data").nullable().binary()]).ok()?;
+        p.insert_rows(msi::Insert::into("Binary").row(vec![msi::Value::from("Kept"), msi::Value::from("Binary.Kept")])).ok()?;
+        for n in ["Binary.Kept", "Binary.Dialog", "Binary.", "Icon.Gone", "Binary"] {
+            let mut w = p.write_stream(n).ok()?;
+            w.write_all(n.as_bytes()).ok()?;
+            w.flush().ok()?;
+        }
+    }
+    if bit(1) {
+        p.create_table(
+            "Child",
+            vec![msi::Column::build("K").primary_key().int16(), msi::Column::build("Parent_").nullable().foreign_key("NoSuchParent", 1).id_string(72), msi::Column::build("Other_").nullable().foreign_key("Binary", 1).int16()],
+        )
+        .ok()?;
+    }
+    if bit(2) {
+        p.summary_info_mut().clear_title();
+        p.summary_info_mut().clear_author();
+    }
+    if bit(3) {
+        p.summary_info_mut().set_title("");
+        p.summary_info_mut().set_comments("");
+    }
+    if bit(4) {
+        p.set_database_codepage(msi::CodePage::Windows1252);
+    }
+    if bit(5) {
+        p.summary_info_mut().set_codepage(msi::CodePage::Windows1251);
+        p.summary_info_mut().set_subject("тема");
+    }
+    if bit(6) {
+        // strings interned last and released again: unused entries at the end of the pool
+        p.create_table("Scratch", vec![msi::Column::build("K").primary_key().string(32)]).ok()?;
+        p.insert_rows(msi::Insert::into("Scratch").row(vec![msi::Value::from("t0x1 temporary")]).row(vec![msi::Value::from("t0x2 temporary")])).ok()?;
+        p.delete_rows(msi::Delete::from("Scratch")).ok()?;
+    }
+    if bit(7) {
+        p.create_table("Empty", vec![msi::Column::build("K").primary_key().int32(), msi::Column::build("V").nullable().text_string(0)]).ok()?;
+    }
+    if bit(8) {
+        p.summary_info_mut().clear_creation_time();
+        p.summary_info_mut().clear_uuid();
+        p.summary_info_mut().clear_creating_application();
+    }
+    if bit(9) {
+        p.summary_info_mut().set_languages(&[]);
+        p.summary_info_mut().clear_arch();
+    }
+    if bit(10) {
+        p.create_table("Dropped", vec![msi::Column::build("K").primary_key().int16()]).ok()?;
+        p.drop_table("Dropped").ok()?;
+    }
+    p.into_inner().ok()?;
+    Some(med.live())
+}
+
 /// Input packages: library-written (random history) or independently encoded.
 fn make_input(seed: u64, case: u64) -> Option<(Vec<u8>, &'static str)> {
     let mut rng = Rng::derive(seed, 16, case);
+    if case % 5 == 4 {
+        return make_featured(&mut rng).map(|b| (b, "library-written-featured"));
+    }
     if case % 2 == 0 {
         let mut g = Gen::new(Rng::derive(seed, 161, case), GenCfg { invalid_pct: 0, ..Default::default() }, case);
         let mut s = Session::create(["Installer", "Patch", "Transform"][(case % 3) as usize]).ok()?;
